@@ -2,7 +2,7 @@
 From Cfb.model Require Import Base Names DirEnt State Alloc Dir Mini Store Handle Open Cfb.
 From Cfb.gen Require Import Consts.
 From Cfb.spec Require Import WfImage.
-From Cfb.proofs Require Import WfProofs CoherenceProofs ReuseProofs DirProofs WalkSafe ReadonlyTotal PersistProofs WfPersist.
+From Cfb.proofs Require Import WfProofs CoherenceProofs ReuseProofs DirProofs WalkSafe ReadonlyTotal PersistProofs WfPersist HistoryRefine Progress.
 Set Printing Width 110.
 
 (* base case, version 3 *)
@@ -112,3 +112,15 @@ Theorem C03_checker_rejects_a_corrupted_example_image : ltac:(let t := type of W
 Proof. exact WfExample.hist_image_broken_rejected. Qed.
 Check C03_checker_rejects_a_corrupted_example_image.
 Print Assumptions C03_checker_rejects_a_corrupted_example_image.
+
+(* the same with NO hypothesis about the model's results (proofs/Progress.v) *)
+Theorem C03_images_of_namespace_histories_are_well_formed_unconditionally : ltac:(let t := type of wf_history_total in exact t).
+Proof. exact wf_history_total. Qed.
+Check C03_images_of_namespace_histories_are_well_formed_unconditionally.
+Print Assumptions C03_images_of_namespace_histories_are_well_formed_unconditionally.
+
+(* at every operation boundary *)
+Theorem C03_well_formed_at_every_prefix_unconditionally : ltac:(let t := type of wf_every_prefix_total in exact t).
+Proof. exact wf_every_prefix_total. Qed.
+Check C03_well_formed_at_every_prefix_unconditionally.
+Print Assumptions C03_well_formed_at_every_prefix_unconditionally.
